@@ -27,7 +27,7 @@ HEAD = {
     "C14": "C14_noninterference (any interleaving of any histories) + no_shared_writes / format_leaves_arguments decided on the re-extracted static scan",
     "C15": "C15_idempotent: minify(parse(minify(parse(src)))) = minify(parse(src)) byte for byte, for MinifiedStyle as extracted; C15_idempotent_general",
     "C16": "C16_positions, C16_reference_position, C16_eof, C16_advance, C09_error_positions",
-    "C17": "C17_links, C17_walk (generic tree model) + schema_links/walk/replace/exercised decided on the re-extracted class schema",
+    "C17": "C17_links, C17_walk (generic tree model) + schema_links/walk/replace/exercised decided on the re-extracted class schema, C17_replace_exact/_elsewhere/_ancestors and C17_after_edits (replacement on the generic tree model: exactly the given occurrence; a proper tree again after any sequence of replacements)",
     "C18": "C18_eq (== iff structural identity on the generic model) + schema_eq decided on the re-extracted class schema",
     "C19": "C19_ok (chain empty on success), C19_rejected (hint positions non-decreasing, none after the offending token), C19_lexer_monotone",
     "C20": "C20_delivery, C20_all_comments, C05_comments, Lex_sound / Lex_complete (no comment text becomes a token, no token is swallowed)",
